@@ -127,12 +127,12 @@ _STREAM = ("streams are composed by rapid from a committed pool of classified PR
            "targets {pass count of a drawn item at allowed-1..allowed+2 failing samples, ten-bin Q histogram of a drawn item drawn from all partitions of s with uniformity P in [1e-6,1e-2] "
            "in a drawn bin order, two items failing, 'half' (a two-sided item whose Q-values all lie in one half of [0,1]: the Q histogram fails while the P histogram would pass), 'mixed' (item i fails only the uniformity criterion with a two-bin histogram while a later item j fails only the pass count), 'one-bad' (all-pass samples plus exactly the tolerated number of stuck-at samples), random pool samples, all-pass samples, (periodic) 20 degree-63 LFSR samples that only the excluded items 13-15 reject}, samples shuffled, "
            "0 / 1 / sampleBytes-1 / sampleBytes / 3*sampleBytes trailing bytes (zero or random); an eighth of the streams end exactly after the last sample with io.EOF returned together with the final bytes, an eighth come from a standard *bytes.Reader / *os.File positioned behind a header of zeros. History: a third of the cases (C07, C08, C10, C14) are preceded, in the same process, by another detection - the same workflow or any of period / poweron / factory, sequential or parallel, or the single-shot one - on a source that ran dry after 1..49999 bytes. ")
-RULES["C07"] = (_STREAM + "oracle: independent decision model (exact-integer threshold, own binning, big.Float igamc) over the registry runners' results on each sample: verdict equal, nil error iff true, "
+RULES["C07"] = (_STREAM + "C07 additionally: 'replayed' - one all-pass sample repeated r times (r in 2..s, half of the time >= 3s/4), the rest distinct all-pass samples: every item has r Q-values in one interval. oracle: independent decision model (exact-integer threshold, own binning, big.Float igamc) over the registry runners' results on each sample: verdict equal, nil error iff true, "
                 "error names an item violating a criterion; (periodic) same outcome with and without the trailing bytes. non-trivial: some item's pass count in {t-1,t} or some item's uniformity P in [1e-5,1e-3]. "
                 "distinct: hash of the case JSON.")
 PROPS["C07"] = {
     "level": "exploration",
-    "quick": shards(6, "TestC07", 150, mode="period", floor=50) + [S("TestC07", 1, mode="poweron", floor=1, weight=2, env={"VERIF_TARGETS": tg}) for tg in ("one-bad", "passcount", "uniformity", "mixed", "half", "two-items")]
+    "quick": shards(6, "TestC07", 150, mode="period", floor=50) + [S("TestC07", 1, mode="poweron", floor=1, weight=2, env={"VERIF_TARGETS": tg}) for tg in ("one-bad", "passcount", "uniformity", "mixed", "half", "two-items", "replayed")]
              + [S("TestC07", 1, mode="factory", floor=1, weight=2, env={"VERIF_TARGETS": tg}) for tg in ("one-bad", "uniformity", "half")],
     "thorough": shards(6, "TestC07", 6000, mode="period", floor=1500, timeout=3400) + shards(7, "TestC07", 20, mode="poweron", floor=6, weight=2, timeout=3400)
                 + shards(3, "TestC07", 8, mode="factory", floor=3, weight=2, timeout=3400),
@@ -258,15 +258,19 @@ PROPS["C17"] = {
 RULES["C18"] = ("a plan of 2..64 goroutines, each assigned a drawn test (the fifteen registry tests through runner / byte entry point / bit entry point with a documented parameter, Round12, Round15) and one of 1..4 shared inputs "
                 "(1200..4000 bytes and their bit expansions; uniform, biased, markov, periodic, sparse; one case in four 16..60 bytes; one case in six 9000..130000 bytes with the cheaper tests only), GOMAXPROCS in {2,4,16}. oracle: every task computed alone first, then once more (determinism, bit-identical), then all released from a barrier: "
                 "each concurrent result bit-identical to the solitary one, every input slice equal to its snapshot afterwards; the same check also runs in a -race binary (a race report is a violation). Deterministic shards call every test x documented parameter x entry point 70000 times in a row (1.2 million thorough; more than a 16-bit / 20-bit counter holds), alternating between two inputs of different length: every result bit-identical to the first one for that input. One case in four uses the shortest admissible inputs (128..480 bits). Three deterministic shards call every test (default parameter, both entry points) three times on 6- and 12-million-bit inputs: bit-identical. "
+                "Crowd shards: 32 and 48 simultaneous invocations of one test (all but linear complexity) on two shared inputs of 2^20+.. and 1.5*2^20 bits (DFT on 2^21 points), more callers than any fixed pool has slots. "
+                "In every concurrent phase a deadlock (every goroutine inside the library parked for 5 s without interruption) is a violation, not a timeout. "
                 "non-trivial: at least two goroutines share an input and at least two distinct tests run. distinct: hash of the case JSON.")
 PROPS["C18"] = {
     "level": "exploration",
     "quick": shards(4, "TestC18", 60, floor=20) + shards(3, "TestC18", 25, race=True, floor=8, weight=3)
              + [S("TestC18ManyCalls", floor=5, env={"VERIF_PARTS": 4, "VERIF_PART": i}) for i in range(4)]
-             + [S("TestC18Huge", floor=3, env={"VERIF_PARTS": 3, "VERIF_PART": i}) for i in range(3)],
+             + [S("TestC18Huge", floor=3, env={"VERIF_PARTS": 3, "VERIF_PART": i}) for i in range(3)]
+             + [S("TestC18Crowd", floor=5, weight=2, env={"VERIF_PARTS": 4, "VERIF_PART": i}) for i in range(4)],
     "thorough": shards(8, "TestC18", 4000, floor=1000, timeout=3400) + shards(6, "TestC18", 400, race=True, floor=150, weight=2, timeout=3400)
              + [S("TestC18ManyCalls", floor=5, env={"VERIF_PARTS": 8, "VERIF_PART": i, "VERIF_CALLS": 1200000}, timeout=3400) for i in range(8)]
-             + [S("TestC18Huge", floor=3, env={"VERIF_PARTS": 3, "VERIF_PART": i}) for i in range(3)],
+             + [S("TestC18Huge", floor=3, env={"VERIF_PARTS": 3, "VERIF_PART": i}) for i in range(3)]
+             + [S("TestC18Crowd", floor=5, weight=2, env={"VERIF_PARTS": 4, "VERIF_PART": i}) for i in range(4)],
     "assumptions": ["interleavings are sampled (barrier release, GOMAXPROCS), not enumerated", "the race detector only sees races on executed paths"],
 }
 
